@@ -168,3 +168,21 @@ Theorem C04_github_actions :
   forall pkgs, walk_gha content root = Some pkgs -> map nh pkgs = declared_gha v.
 Proof. exact gha_exact. Qed.
 Print Assumptions C04_github_actions.
+
+(* known findings of the YAML / TOML walks, by witness at the value level *)
+Example C04_pnpm_catalog_anywhere_refuted :
+  let v := YMap false [([111;118;101;114;114;105;100;101;115], YMap false [(w_catalog, YMap false [([108;101;102;116;45;112;97;100], YStr [49;46;48;46;48])])]);
+                       (w_catalog, YMap false [([114;101;97;99;116], YStr [94;49;56;46;48;46;48])])] in
+  pnpm_known v = true /\ declared_pnpm v = [([114;101;97;99;116], [94;49;56;46;48;46;48])].
+Proof. vm_compute. repeat split. Qed.
+(* [all_steps] is what the walk computes on a value (GhaWalkProofs.walk_gha_all): it reads the step input named uses as well *)
+Example C04_gha_uses_anywhere_refuted :
+  let v := YMap false [(w_jobs, YMap false [([98], YMap false [(w_steps, YSeq false
+             [YMap false [(w_uses, YStr [97;99;116;105;111;110;115;47;99;104;101;99;107;111;117;116;64;118;52]); ([119;105;116;104], YMap false [(w_uses, YStr [97;47;98;64;118;49])])]])])])] in
+  gha_regular v = false /\ steps_fine v = true /\ declared_gha v = [([97;99;116;105;111;110;115;47;99;104;101;99;107;111;117;116], [118;52])]
+  /\ all_steps v = [([97;99;116;105;111;110;115;47;99;104;101;99;107;111;117;116], [118;52]); ([97;47;98], [118;49])].
+Proof. vm_compute. repeat split. Qed.
+Example C04_cargo_dotted_path_refuted :
+  let d := [ITable [w_dependencies] [([[102;111;111]; w_path], TStr [46;46;47;102;111;111]); ([[102;111;111]; w_version], TStr [49;46;50;46;51])]] in
+  cargo_known d = true /\ declared_cargo d = [].
+Proof. vm_compute. repeat split. Qed.
